@@ -33,8 +33,10 @@ def configs(tier):
     maxpre = 2 if tier == 'quick' else 3
     for lead in LEADS:
         for r in range(0, maxpre + 1):
-            for pre in itertools.combinations(PRE, r):
-                for t in ADD:
+            for pi, pre in enumerate(itertools.combinations(PRE, r)):
+                for ti, t in enumerate(ADD):
+                    if tier == 'quick' and r == 2 and (pi + ti) % 2:
+                        continue      # quick tier: every second (pair of merged terms, added term) combination
                     out.append((lead, pre, t))
     return out
 
